@@ -68,6 +68,8 @@ type (
 		variant map[string]int
 		// flags for this progress
 		flags progressVariantFlag
+		// the current regex did not match, find moved the offset to the end of the buffer, never retry it there
+		failed bool
 	}
 	variantResult struct {
 		variant   map[string]int
@@ -763,7 +765,7 @@ func makeDataConditionFilter(dataSources []func(s *stream) ([][2]int, [2][]byte,
 
 						ps := &progressGroups[o.condition]
 						for pIdx := 0; pIdx < len(ps.variants); pIdx++ {
-							if p := &ps.variants[pIdx]; o.element != p.nSuccessful {
+							if p := &ps.variants[pIdx]; o.element != p.nSuccessful || p.failed {
 								continue
 							}
 
@@ -774,6 +776,7 @@ func makeDataConditionFilter(dataSources []func(s *stream) ([][2]int, [2][]byte,
 
 							res := p.find(buffers, dir)
 							if res == nil {
+								p.failed = true
 								continue
 							}
 							variableNames := p.regex.SubexpNames()
